@@ -86,8 +86,12 @@ func c03() int {
 				bounds = append(bounds, len(c.Res.Postings))
 				break
 			}
-			pre := c.P.Prefix(k)
-			r := nsrun.Compile(compiler.Compile, pre.Text()).Exec(c.In)
+			pc := c.PrefixComp[k]
+			if pc == nil {
+				pc = nsrun.Compile(compiler.Compile, c.P.Prefix(k).Text())
+				c.PrefixComp[k] = pc
+			}
+			r := pc.Exec(c.In)
 			if r.Class != nsgen.ClsOK {
 				return // prefix behaves differently (cannot attribute); C08 compares the whole program
 			}
